@@ -379,7 +379,15 @@ fn find_free_symbols_in_proc<'a>(
     env: &mut HashSet<&'a Cell>,
     free: &mut HashSet<&'a Cell>,
 ) -> Result<(), Error> {
-    if car.is_quote() || car.is_quasiquote() {
+    if car.is_quote() {
+        return Ok(());
+    }
+
+    // Only the unquoted expressions of a quasiquote template refer to variables
+    if car.is_quasiquote() {
+        if let Some(template) = cdr.car() {
+            find_free_symbols_in_quasiquote(template, 0, env, free)?;
+        }
         return Ok(());
     }
 
@@ -462,6 +470,46 @@ fn find_free_symbols_in_proc<'a>(
 ///
 /// # Arguments
 /// `body` - The body of the lambda
+/// Find Free Symbols in Quasiquote
+///
+/// Walk a quasiquote template (lists and vectors), applying find_free_symbols
+/// to every expression that is unquoted at nesting depth 0.
+fn find_free_symbols_in_quasiquote<'a>(
+    cell: &'a Cell,
+    depth: usize,
+    env: &mut HashSet<&'a Cell>,
+    free: &mut HashSet<&'a Cell>,
+) -> Result<(), Error> {
+    match cell {
+        Cell::Vector(vector) => {
+            for it in vector {
+                find_free_symbols_in_quasiquote(it, depth, env, free)?;
+            }
+            Ok(())
+        }
+        Cell::Pair(car, cdr) => {
+            let is_form = cdr.is_pair() && cdr.cdr().unwrap().is_nil();
+            if car.is_unquote() && is_form {
+                let arg = cdr.car().unwrap();
+                return match depth {
+                    0 => find_free_symbols(arg, env, free),
+                    _ => find_free_symbols_in_quasiquote(arg, depth - 1, env, free),
+                };
+            }
+            if car.is_quasiquote() && is_form {
+                return find_free_symbols_in_quasiquote(cdr.car().unwrap(), depth + 1, env, free);
+            }
+            let mut rest = cell;
+            while rest.is_pair() {
+                find_free_symbols_in_quasiquote(rest.car().unwrap(), depth, env, free)?;
+                rest = rest.cdr().unwrap();
+            }
+            Ok(())
+        }
+        _ => Ok(()),
+    }
+}
+
 pub fn internally_defined_symbols(body: &Cell) -> Result<HashSet<&Cell>, Error> {
     let mut symbols = HashSet::new();
     let mut beginning_of_body = true;
